@@ -126,13 +126,16 @@ def tagged_record(name_, tags, **fields):
     return name
 
 
-TUPLE_RECORDS = set()   # namedtuples: immutable records that unpack into their fields in order
+ASLIST = {}          # record name -> field holding the list the object IS when it is used as a list (len, join, iteration)
 
 
-def tuple_record(name_, **fields):
+TUPLE_RECORDS = {}      # records that unpack like tuples: name -> field names in unpacking order (None: all fields in order)
+
+
+def tuple_record(name_, unpack=None, **fields):
     name = name_
-    RECORDS[name] = dict(fields)
-    TUPLE_RECORDS.add(name)
+    RECORDS.setdefault(name, {}).update(fields)
+    TUPLE_RECORDS[name] = list(unpack) if unpack else None
     return name
 
 
